@@ -39,6 +39,7 @@ def followup(stage, lines, model, checked, release, tier, rng):
             s = ln.split("::")[1]
             p = S.P(s)
             pk, sk = K.keys_of(ans)
+            _st.setdefault("sk_of", {})[pk] = sk
             pre = p.tr + (2 if p.mldsa else 0)
             lens = sorted({0, 1, 136 - pre - 1, 136 - pre, 136 - pre + 1, 300} | ({2000} if tier == "thorough" else set()))
             reqs = []
@@ -60,6 +61,14 @@ def followup(stage, lines, model, checked, release, tier, rng):
             for (r, kind, ctx, ph) in reqs:
                 _st["pairs"].append(dict(set=s, pk=pk, req=r, kind=kind))
                 L.append(r)
+                # the Keypair entry points must behave as SecretKey / PublicKey on the two halves of Keypair::to_bytes
+                if kind == "api" and not r.startswith("@impl"):
+                    t = r.split(" ")
+                    if "::SecretKey::" in t[0]:
+                        t[0] = t[0].replace("::SecretKey::", "::Keypair::"); t[1] = sk + pk
+                        tw = "@impl " + " ".join(t)
+                        _st.setdefault("twins", []).append((tw, r))
+                        L.append(tw)
         return L
     if stage == 2:
         idx = {l: i for i, l in enumerate(lines)}
@@ -84,6 +93,15 @@ def followup(stage, lines, model, checked, release, tier, rng):
                     v = K.api_verify(s, e["pk"], msg, sig)
             e["ver"] = v
             L.append(v)
+            if "::PublicKey::" in v:
+                t = v.split(" ")
+                t[0] = t[0].replace("::PublicKey::", "::Keypair::")
+                sk0 = _st.get("sk_of", {}).get(e["pk"])
+                if sk0:
+                    t[1] = sk0 + e["pk"]
+                    tw = "@impl " + " ".join(t)
+                    _st.setdefault("twins", []).append((tw, v))
+                    L.append(tw)
         return L
     return []
 
@@ -97,6 +115,13 @@ def violated_all(lines, model, checked, release):
             for prof, ans in (("checked", checked), ("wrapping", release)):
                 if ans[i] != "ok n=%s bad=-" % n and ans[i] != "timeout":
                     out.append((i, "%s build: signing %s messages under one %s key: %s" % (prof, n, l.split()[2], ans[i][:60])))
+    for (tw, orig) in _st.get("twins", []):
+        i, j = idx.get(tw), idx.get(orig)
+        if i is None or j is None:
+            continue
+        for prof, ans in (("checked", checked), ("wrapping", release)):
+            if ans[i] != ans[j]:
+                out.append((i, "%s build: %s answers %s where %s answers %s on the same key material and arguments" % (prof, tw.split()[1], ans[i][:40], orig.split()[0], ans[j][:40])))
     for e in _st["pairs"]:
         i = idx.get(e["req"])
         if i is None:
